@@ -162,5 +162,43 @@ def rule_v4(repo):
     return res
 
 
+def rule_v5(repo):
+    """Normal forms are sorted with comparison functions (cmp_to_key).  A comparison that walks over the
+    components of its arguments must be able to reach the second component: a loop whose body leaves on
+    every path of its first iteration compares first components only, equal-looking keys keep their
+    insertion order and the 'normal form' depends on how the term was written."""
+    res = RuleResult('C10.V5', 'an ordering used to sort normal forms compares all components: none of its loops stops after the first iteration on every path', floor=2)
+    targets = []
+    for m in repo.source_modules():
+        for c in ast.walk(m.tree):
+            if isinstance(c, ast.Call) and (call_name(c) or '').split('.')[-1] == 'cmp_to_key' and c.args:
+                nm = call_name(ast.Call(func=c.args[0], args=[], keywords=[])) if isinstance(c.args[0], (ast.Name, ast.Attribute)) else None
+                r = repo.resolve_name(m, nm) if nm else None
+                if r is not None and hasattr(r, 'node') and r not in targets:
+                    targets.append(r)
+    need(len(targets) >= 2, 'no comparison function passed to cmp_to_key found')
+    funcs = {}
+    for t in targets:
+        for g in repo.reachable_funcs([t], depth=3):
+            if g.module.rel in ('kernel/term_ord.py', 'util/poly.py') or g is t:
+                funcs[id(g)] = g
+    n_loops = 0
+    for g in funcs.values():
+        cfg = cfg_of(g.node)
+        for it in cfg.nodes_of_kind('iter'):
+            n_loops += 1
+            body = [b for b, l in it.succ if l == 'loop']
+            again = it.id in cfg.reach_from(body)
+            res.add('%s :: %s :: loop@%s' % (g.module.rel, g.qualname, src(it.ast.iter, 30)), again,
+                    'a further iteration is reachable' if again else
+                    'every path through the loop body leaves the loop in its first iteration: only the first component is compared',
+                    '%s:%d' % (g.module.rel, it.lineno))
+        for n in cfg.nodes:
+            if n.kind == 'join' and isinstance(n.stmt, ast.While):
+                n_loops += 1
+    need(n_loops >= 2, 'comparison functions contain no loops (anchor moved?)')
+    return res
+
+
 def rules(repo):
-    return [rule_v1(repo), rule_v2(repo), rule_v3(repo), rule_v4(repo)]
+    return [rule_v1(repo), rule_v2(repo), rule_v3(repo), rule_v4(repo), rule_v5(repo)]
